@@ -239,6 +239,7 @@ func runEmittedPatterns(cfg *vh.Config, r *vh.Rand, res *vh.Result, cf *vh.Cases
 			continue
 		}
 		found := map[string][]string{}
+		backAll := map[string]string{}
 		for _, f := range files {
 			msgs := f.Messages()
 			for m := 0; m < msgs.Len(); m++ {
@@ -254,6 +255,7 @@ func runEmittedPatterns(cfg *vh.Config, r *vh.Rand, res *vh.Result, cf *vh.Cases
 				}
 				sort.Strings(names)
 				for _, n := range names {
+					backAll[n] = back[n]
 					if back[n] != "id62" {
 						res.Fail(vh.Failure{Case: *caseNo, Stream: "emit", Sig: "C20 key:id62 field is not recognised as id62 on read-back",
 							Clause: "PatternString is ... recognised on read-back", Input: map[string]any{"j5s": src, "field": n}, Got: back[n], Want: "id62"})
@@ -289,6 +291,19 @@ func runEmittedPatterns(cfg *vh.Config, r *vh.Rand, res *vh.Result, cf *vh.Cases
 			for _, p := range pats {
 				cf.Terms = append(cf.Terms, fmt.Sprintf("CEmit %s", vh.BytesTerm(p)))
 				res.Cases = append(res.Cases, vh.CaseRec{Case: *caseNo, Stream: "emit", Input: map[string]any{"field": n, "j5s": src}, Impl: p})
+			}
+			// the reader's recognition against its model (Id62.reads_back_as over the regenerated table): the one
+			// pattern the field carries, and whether the reflected schema has it as a key of format id62
+			if b, seen := backAll[n]; seen && len(pats) >= 1 {
+				one := true
+				for _, p := range pats {
+					one = one && p == pats[0]
+				}
+				if one {
+					cf.Terms = append(cf.Terms, fmt.Sprintf("CReadback %s %s", vh.BytesTerm(pats[0]), vh.BoolTerm(b == "id62")))
+					res.Cases = append(res.Cases, vh.CaseRec{Case: *caseNo, Stream: "readback", Input: map[string]any{"field": n, "j5s": src}, Impl: b})
+					res.Count("readback-case")
+				}
 			}
 		}
 		res.Sample(map[string]any{"stream": "emit", "j5s": src, "patterns": found}, 12)
